@@ -202,6 +202,21 @@ def part_b(ck, tier):
         cfg['parseinfo'] = True
         jobs.add(g, cfg, texts)
         cases.append(default_case(to_ebnf(g), texts, label=name))
+    # the start offset of a rule is the offset after ALL leading whitespace and comments (the skip is a fixpoint over whitespace,
+    # end-of-line comments and block comments, whatever their order)
+    pieces = [' ', '\n', '(*c*)', '#d\n', '(*c*)#d\n', '#d\n(*c*)', ' (*c*) #d\n ', '(*c*)(*e*)', '#d\n#f\n']
+    ctexts = []
+    for g1 in pieces:
+        for g2 in pieces[:7]:
+            ctexts += [list(g1 + 'a' + g2 + 'b'), list('a' + g1 + 'b' + g2 + '+'), list(g1 + 'a')]
+    ctexts = [list(x) for x in dict.fromkeys(''.join(t) for t in ctexts)]
+    for name in ('flat', 'nested', 'list', 'token-rule'):
+        g = gs[name]
+        cfg = make_cfg(chars_of(g, ctexts), eolc='#', cmt=('(*', '*)'))
+        cfg['parseinfo'] = True
+        jobs.add(g, cfg, ctexts)
+        cases.append(default_case(to_ebnf(g), ctexts, label=name + '/comments',
+                                  settings={'eol_comments': r'(?m)#.*?$', 'comments': r'\(\*.*?\*\)'}))
     r, spec = run_oracle(jobs)
     ck.add_tlc(r, 'PegSemBatch(parseinfo)')
     impl = run_impl(cases, fn=run_pi_case, chunk=1)
